@@ -181,6 +181,8 @@ def files_deduped(m):
         env = pyutil.single_alias_env(f)
         inners = [lp for lp in ast.walk(f) if isinstance(lp, ast.For) and isinstance(lp.iter, ast.Call) and pyfront.call_name(lp.iter) == "ilsdrf"]
         ok = False
+        if len(inners) != 1:
+            raise AnalysisError("%s: loop over ilsdrf(src, **kwargs) not found exactly once (helpers inlined: %s)" % (name, fv.inlined))
         if len(inners) == 1:
             inner = inners[0]
             outer = _outer_loop(fv, inner)
